@@ -69,7 +69,30 @@ pub struct Sim {
 }
 
 fn code_of(s: &tonic::Status) -> Code {
-    s.code() as i32
+    wire_status(s).0
+}
+
+/// The status as a client on a real HTTP/2 connection sees it. An error status travels as response
+/// trailers (`grpc-status`, percent-encoded `grpc-message`, and for a trailers-only response
+/// `:status` and `content-type`); tonic's client announces a header list limit of 16 KiB, and hyper
+/// resets the stream when the trailers do not fit: the call then fails with INTERNAL "h2 protocol
+/// error" instead of the status the handler returned (shown against the real transport by
+/// findings/C17_long_name_real_transport_test.rs; the boundary measured there - a message of 16 029
+/// bytes arrives, one of 16 229 does not - agrees with RFC 7541 accounting: name + value + 32 per field).
+fn wire_status(s: &tonic::Status) -> (Code, String) {
+    const HEADER_LIST_LIMIT: usize = 16 * 1024;
+    let encoded: usize = s
+        .message()
+        .bytes()
+        .map(|b| if b < 0x20 || b >= 0x7f || matches!(b, b' ' | b'"' | b'#' | b'<' | b'>' | b'`' | b'?' | b'{' | b'}' | b'%') { 3 } else { 1 })
+        .sum();
+    // :status 200, content-type application/grpc, grpc-status N, grpc-message <encoded>
+    let list = (7 + 3 + 32) + (12 + 16 + 32) + (11 + 2 + 32) + (12 + encoded + 32);
+    if list > HEADER_LIST_LIMIT {
+        (INTERNAL, format!("h2 protocol error: the status ({:?}, message of {} bytes) does not fit the client's 16 KiB header list limit; the handler said: {}", s.code(), s.message().len(), s.message().chars().take(60).collect::<String>()))
+    } else {
+        (s.code() as i32, s.message().chars().take(120).collect())
+    }
 }
 
 fn attrs_hash(attrs: &std::collections::HashMap<String, String>) -> (u64, u64) {
@@ -359,7 +382,7 @@ impl Sim {
             Ok(GuardOut::Abandoned(k)) => Outcome::Abandoned(k),
             Ok(GuardOut::Panic(m)) => Outcome::Panic(m),
             Ok(GuardOut::Done(Err(status))) => {
-                Outcome::Err(code_of(&status), status.message().chars().take(120).collect())
+                Outcome::Err(wire_status(&status).0, wire_status(&status).1)
             }
             Ok(GuardOut::Done(Ok(resp))) => Outcome::Ok(map(resp.into_inner())),
         };
@@ -516,7 +539,7 @@ impl Sim {
             Err(_) => Outcome::Hang,
             Ok(GuardOut::Abandoned(k)) => Outcome::Abandoned(k),
             Ok(GuardOut::Panic(m)) => Outcome::Panic(m),
-            Ok(GuardOut::Done(Err(status))) => Outcome::Err(code_of(&status), status.message().chars().take(120).collect()),
+            Ok(GuardOut::Done(Err(status))) => Outcome::Err(wire_status(&status).0, wire_status(&status).1),
             Ok(GuardOut::Done(Ok(resp))) => Outcome::Ok(map(resp.into_inner())),
         }
     }
@@ -598,7 +621,7 @@ impl Sim {
                 }
                 Ok(GuardOut::Done(Err(status))) => {
                     sim.log(client, Ev::StreamStarted { slot, code: code_of(&status) });
-                    sim.log(client, Ev::StreamEnd { slot, end: StreamEnd::Status(code_of(&status), status.message().chars().take(120).collect()) });
+                    sim.log(client, Ev::StreamEnd { slot, end: StreamEnd::Status(wire_status(&status).0, wire_status(&status).1) });
                     sim.streams.borrow_mut().remove(&slot);
                     return;
                 }
@@ -626,7 +649,7 @@ impl Sim {
                         break;
                     }
                     GuardOut::Done(Err(status)) => {
-                        sim.log(client, Ev::StreamEnd { slot, end: StreamEnd::Status(code_of(&status), status.message().chars().take(120).collect()) });
+                        sim.log(client, Ev::StreamEnd { slot, end: StreamEnd::Status(wire_status(&status).0, wire_status(&status).1) });
                         break;
                     }
                     GuardOut::Done(Ok(None)) => {
@@ -730,7 +753,7 @@ impl Sim {
                     break;
                 }
                 GuardOut::Done(Err(status)) => {
-                    self.log(client, Ev::StreamEnd { slot, end: StreamEnd::Status(code_of(&status), status.message().chars().take(120).collect()) });
+                    self.log(client, Ev::StreamEnd { slot, end: StreamEnd::Status(wire_status(&status).0, wire_status(&status).1) });
                     break;
                 }
                 GuardOut::Done(Ok(None)) => {
